@@ -450,7 +450,9 @@ func c19Oracle(c *C19Case) string {
 			continue
 		}
 		sem, settled := semFromPairs(pairs)
-		if !settled {
+		if !settled || strings.ContainsRune(sem.Short, 0) {
+			// (a NUL short name coincides with the model's "no short name" value
+			// and cannot occur in an argument vector anyway)
 			unsettled = true
 		}
 		sems[o.ID] = sem
